@@ -465,8 +465,10 @@ def history_case(u, row, word, warm):
     def rec(reg, fr=(), splits=(), segk=True):
         return {"reg": reg, "frame": tuple(fr), "splits": frozenset(tuple(p) for p in splits), "segk": segk, "warm": False}
 
-    def st(fa, fb, obs, third=None, sa=(), sb=(), ka=True, kb=True):
-        return {"heap": (E_REC, W_REC, rec(ra, fa, sa, ka), rec(rb, fb, sb, kb), third or FREE), "regs": (3, 4, 5 if third else 0), "obs": obs}
+    cur = {"sa": (), "sb": (), "ka": True, "kb": True}
+
+    def st(fa, fb, obs, third=None):
+        return {"heap": (E_REC, W_REC, rec(ra, fa, cur["sa"], cur["ka"]), rec(rb, fb, cur["sb"], cur["kb"]), third or FREE), "regs": (3, 4, 5 if third else 0), "obs": obs}
 
     steps = [("SInit", (), {"heap": (E_REC, W_REC, FREE, FREE, FREE), "regs": (0, 0, 0), "obs": {"call": "init"}}),
              ("MakeRegion", (1, ra), {"heap": (E_REC, W_REC, rec(ra), FREE, FREE), "regs": (3, 0, 0), "obs": {"call": "mkreg"}}),
@@ -493,6 +495,23 @@ def history_case(u, row, word, warm):
             steps.append(("Transform", (1, 1, "r1"), st(("r1",) * n_, (), {"call": "transform"})))
         fa = ("r1",) * 4
         word = ()
+    if word and word[0] in ("twice", "twicefresh") and row["cls"] == "T" and row["op"] in ("or", "and"):
+        # the same operator on the same operands again (they now carry the crossing vertices);
+        # "twicefresh": the right operand is rebuilt in between, so only the left one is split
+        rr = row["res"]
+        third = rec(rr, (), row["splits"], row["segk"]) if rr not in (0, full) else None
+        rid = 1 if rr == 0 else 2 if rr == full else 5
+        s_bin = {"heap": (E_REC, W_REC, rec(ra, (), row["sa"], row["ka"]), rec(rb, (), row["sb"], row["kb"]), third or FREE),
+                 "regs": (3, 4, rid), "obs": {"call": "bin", "op": row["op"], "cls": row["cls"], "res": rr}}
+        steps.append(("Bin", (row["op"], 3, 1, 2), s_bin))
+        if word[0] == "twicefresh":
+            s_mk = {"heap": (E_REC, W_REC, rec(ra, (), row["sa"], row["ka"]), rec(rb), third or FREE), "regs": (3, 4, rid), "obs": {"call": "mkreg"}}
+            steps.append(("MakeRegion", (2, rb), s_mk))
+        steps.append(("Bin", (row["op"], 3, 1, 2), s_bin))
+        cur.update(sa=row["sa"], sb=row["sb"], ka=row["ka"], kb=row["kb"])
+        word = ()
+        # the remaining questions are asked with the result still bound to variable 3
+        steps.append(("Drop", (3,), st((), (), {"call": "drop"})))
     for g in word:
         fa = fa + (g,)
         steps.append(("Transform", (1, 1, g), st(fa, fb, {"call": "transform"})))
